@@ -34,6 +34,14 @@ Theorem C06_debit_no_overdraft : forall d supi rg x st req used,
 Proof. exact charge_rg_debit_no_overdraft. Qed.
 Print Assumptions C06_debit_no_overdraft.
 
+(* Debit mode (entered when the account server signalled the final unit): the answer grants nothing and
+   carries the final-unit indication (since the fix; it carried none before). *)
+Theorem C06_debit_final_unit : forall d supi rg st req used d' st' mu,
+  q_mode st = 2 -> charge_rg d supi rg st req used = (d', st', Some mu) ->
+  m_granted mu = Some 0 /\ m_fui mu = true.
+Proof. exact charge_rg_debit_final. Qed.
+Print Assumptions C06_debit_final_unit.
+
 (* non-vacuity: balance 0: nothing is granted and the final unit is indicated *)
 Example C06_nonvacuous :
   charge_rg [mkDoc 1 1 0 [50]] 1 1 (mkRg 0 1 0 0) (Some 100) 0 =
